@@ -45,6 +45,8 @@ def run_case(rs, ctx):
     d = int(gen.pick(rs, [1, 1, 2, 3, 5, 8]))
     lam = float(gen.pick(rs, [0.01, 0.5, 1.0, 3.0, 10.0]))
     scale = bool(rs.integers(4) == 0)
+    if ctx.index % 150 == 7:
+        scale = bool(rs.integers(2))  # the very long batches: half of them with per-arm standardisation
     if kind == "lingreedy":
         lp = {"kind": kind, "epsilon": 0.0, "l2": lam, "scale": scale}
         alpha = 0.0
@@ -72,6 +74,8 @@ def run_case(rs, ctx):
             n = int(rs.integers(140000, 200000))
         pool = [a for a in arms if a != zero_arm or c >= late_from] or arms
         dd = [pool[int(i)] for i in rs.integers(0, len(pool), n)]
+        if huge:
+            dd = [pool[0] if rs_ < 0.9 else a for a, rs_ in zip(dd, rs.random(n))]  # most rows belong to one arm
         X = rs.normal(1, 2, (n, d))
         if huge:
             X = X + np.linspace(0, 3, n)[:, None]  # not identically distributed along the batch
